@@ -316,16 +316,16 @@ func c05ParseIntWidth(c *Ctx, r *Report, rule string) {
 // ClassINET <-> "IN" is one of the listed exceptions. The identifier and the string are two independent spellings in
 // the repository (the reverse tables are derived from these, so a round trip through the library cannot notice a typo).
 var mnemonicExceptions = map[string]string{
-	"TypeNSAPPTR":    "NSAP-PTR", // RFC 1348 writes the hyphen; Go identifiers cannot
-	"TypeNone":       "None",
-	"TypeReserved":   "Reserved",
-	"TypeNXNAME":     "NXNAME",
-	"ClassINET":      "IN", // RFC 1035 mnemonics of the classes are two letters
-	"ClassCSNET":     "CS",
-	"ClassCHAOS":     "CH",
-	"ClassHESIOD":    "HS",
-	"ClassNONE":      "NONE",
-	"ClassANY":       "ANY",
+	"TypeNSAPPTR":  "NSAP-PTR", // RFC 1348 writes the hyphen; Go identifiers cannot
+	"TypeNone":     "None",
+	"TypeReserved": "Reserved",
+	"TypeNXNAME":   "NXNAME",
+	"ClassINET":    "IN", // RFC 1035 mnemonics of the classes are two letters
+	"ClassCSNET":   "CS",
+	"ClassCHAOS":   "CH",
+	"ClassHESIOD":  "HS",
+	"ClassNONE":    "NONE",
+	"ClassANY":     "ANY",
 }
 
 func c05MnemonicIdent(c *Ctx, r *Report, rule string) {
